@@ -124,3 +124,91 @@ void h_B_Parameter_write_char1d(void)
   __CPROVER_assert(BB(desc_at) == D && (vf_gn >= D || BB(desc_at + 1 + vf_gn) == (unsigned char)self->_description.data[vf_gn]), "description length and characters");
   VF_CANARY();
 }
+
+#ifdef VF_ROUNDTRIP
+/* ---------------------------------------------------------------- per-record round trip (C01 C04): the real Parameter::write,
+ * then the real Parameter::read and matrix reader on the bytes just written (read helpers = value stubs), compared field by
+ * field.  Bound: INT parameter, name of VF_RT_L characters, VF_RT_N elements in one dimension (one unit per pair), description <= 2. */
+long nondet_long(void);
+#define VF_STUB_STR_CUT
+#include "value_stubs.h"
+/* the record is an INT record: the float and string matrix readers must not be reached */
+void stubr_float_not_reached(struct c3d *self, const vf_vec_size_t *d, vf_vec_float *out, size_t cur)
+{
+  /*@ C01 C04 : Parameter_roundtrip.type-dispatch */
+  __CPROVER_assert(0, "an INT record is not decoded by the float reader");
+}
+void stubr_string_not_reached(struct c3d *self, const vf_vec_size_t *d, vf_vec_string *out)
+{
+  /*@ C01 C04 : Parameter_roundtrip.type-dispatch-2 */
+  __CPROVER_assert(0, "an INT record is not decoded by the string reader");
+}
+void h_B_Parameter_roundtrip(void)
+{
+  struct Parameter *self = (struct Parameter *)vf_alloc(sizeof(*self));
+  /* name length and element count are constants (VF_RT_L, VF_RT_N): the record offsets are then concrete, and the reader's
+   * recursion depth is decided during symbolic execution */
+  size_t L = VF_RT_L, D = VF_RT_D; /* (a write of symbolic length turns the whole buffer into a conditional expression) */
+  self->_name.size = L; self->_name.data = (char *)vf_alloc(3); self->_name.data[L] = 0;
+  self->_description.size = D; self->_description.data = (char *)vf_alloc(3); self->_description.data[D] = 0;
+  __CPROVER_assume(self->_name.data[0] != 0 && (L < 2 || self->_name.data[1] != 0));               /* std::string content read back through c_str */
+  __CPROVER_assume(D < 1 || self->_description.data[0] != 0);
+  __CPROVER_assume(D < 2 || self->_description.data[1] != 0);
+  self->_isLocked = VF_RT_LOCKED; /* constant as well: the writer negates the name length twice under this flag */
+  self->_data_type = 2;
+  self->_dimension.size = 1;
+  self->_dimension.data = (size_t *)vf_alloc(sizeof(size_t));
+  self->_dimension.data[0] = VF_RT_N;
+  size_t n = VF_RT_N;
+  self->_param_data_int.size = n;
+  self->_param_data_int.data = (int *)vf_alloc(2 * sizeof(int));
+  __CPROVER_assume(self->_param_data_int.data[0] >= -32768 && self->_param_data_int.data[0] <= 32767);  /* 16-bit element type */
+  __CPROVER_assume(self->_param_data_int.data[1] >= -32768 && self->_param_data_int.data[1] <= 32767);
+  self->_param_data_float.size = 0; self->_param_data_float.data = 0;
+  self->_param_data_string.size = 0; self->_param_data_string.data = 0;
+  vf_stream *f = vf_mk_ostream(CAPW);
+  int gid = nondet_int();
+  __CPROVER_assume(gid >= 1 && gid <= 127);
+  vf_spos *dsp = (vf_spos *)vf_alloc(sizeof(vf_spos));
+  vf_fault_enabled = 0; vf_exc = 0;
+  Parameter__write(self, f, gid, dsp);
+  __CPROVER_assert(vf_exc == 0 && !f->fail, "written");
+  size_t end = (size_t)f->pos;
+  /* reload: the record walker has consumed the name-length and group-id bytes */
+  struct c3d *file = (struct c3d *)vf_alloc(sizeof(*file));
+  file->vf_base = *f;
+  file->vf_base.len = end;
+  file->vf_base.pos = 2;
+  file->vf_base.writable = 0;
+  struct Parameter *back = (struct Parameter *)vf_alloc(sizeof(*back));
+  back->_name.size = 0; back->_name.data = (char *)vf_alloc(1); back->_name.data[0] = 0;
+  back->_description.size = 0; back->_description.data = (char *)vf_alloc(1); back->_description.data[0] = 0;
+  back->_data_type = 10000;
+  back->_dimension.size = 0; back->_dimension.data = 0;
+  back->_param_data_int.size = 0; back->_param_data_int.data = 0;
+  back->_param_data_float.size = 0; back->_param_data_float.data = 0;
+  back->_param_data_string.size = 0; back->_param_data_string.data = 0;
+  /*@ C03 : Parameter_roundtrip.name-length-byte */
+  __CPROVER_assert((int)(signed char)f->buf[0] == (self->_isLocked ? -(int)L : (int)L), "name length byte, negative when locked");
+  int next;
+  if (self->_isLocked)            /* the walker passes the name-length byte: a constant in each branch */
+    next = Parameter__read(back, file, -(int)VF_RT_L);
+  else
+    next = Parameter__read(back, file, (int)VF_RT_L);
+  /*@ C01 C04 : Parameter_roundtrip.accepted */
+  __CPROVER_assert(vf_exc == 0 && !file->vf_base.fail, "the record just written is read back without error");
+  /*@ C01 C04 : Parameter_roundtrip.lock-and-type */
+  __CPROVER_assert(back->_isLocked == self->_isLocked && back->_data_type == 2, "lock flag and element type survive");
+  /*@ C01 C04 : Parameter_roundtrip.name-upper-cased */
+  __CPROVER_assert(back->_name.size == L && (vf_gc >= L || back->_name.data[vf_gc] == VF_UPPER(self->_name.data[vf_gc])), "name survives (upper-cased)");
+  /*@ C01 C04 : Parameter_roundtrip.shape */
+  __CPROVER_assert(back->_dimension.size == 1 && back->_dimension.data[0] == n, "shape survives (a 1-element vector comes back as the scalar shape {1})");
+  /*@ C01 C04 C12 : Parameter_roundtrip.values */
+  __CPROVER_assert(back->_param_data_int.size == n && (vf_gv >= n || back->_param_data_int.data[vf_gv] == self->_param_data_int.data[vf_gv]), "values survive");
+  /*@ C01 C04 : Parameter_roundtrip.description */
+  __CPROVER_assert(back->_description.size == D && (vf_gn >= D || back->_description.data[vf_gn] == self->_description.data[vf_gn]), "description survives");
+  /*@ C01 C03 : Parameter_roundtrip.consumed-exactly-the-record */
+  __CPROVER_assert((size_t)file->vf_base.pos == end && next == (int)end, "the reader ends where the writer ended, and the offset word points there");
+  VF_CANARY();
+}
+#endif
